@@ -50,6 +50,10 @@ static void run_dd(uint64_t seed, uint64_t count) {
 		case 1: b[0] = a[0]; b[1] = a[1]; break;
 		case 2: b[0] = -a[0]; b[1] = -a[1]; break;
 		case 3: b[0] = std::ldexp(1.0, (int)g.below(40) - 20); b[1] = 0; break;     // power of two
+		case 4: {   // heads a few ulps apart with opposite signs (near cancellation), independent full-size tails
+			int k = (int)g.below(7) - 3; double h = -a[0];
+			for (int j = 0; j < (k < 0 ? -k : k); ++j) h = std::nextafter(h, k < 0 ? -INFINITY : INFINITY);
+			b[0] = h; b[1] = std::ldexp(gen_sig(g), std::ilogb(a[0] == 0 ? 1.0 : a[0]) - 54 - (int)g.below(3)); break; }
 		default: break;
 		}
 		{ double s, e; ts(b[0], b[1], s, e); b[0] = s; b[1] = e; }
